@@ -115,6 +115,13 @@ func (m *Machine) obligation(kind, label string, c *Term, fr *Frame) {
 		ob.Path = append([]int(nil), m.decisions...)
 	default:
 		ob.Verdict = "unknown"
+		if m.curRep != nil {
+			m.curMu.Lock()
+			if _, ok := m.curRep.Scripts["unknown:"+kind+"|"+label]; !ok && len(m.curRep.Scripts) < 64 {
+				m.curRep.Scripts["unknown:"+kind+"|"+label] = m.sol.Standalone(tb, []*Term{nc})
+			}
+			m.curMu.Unlock()
+		}
 	}
 	m.res.Obligations = append(m.res.Obligations, ob)
 	if kind == "assert" && v != Unsat {
